@@ -26,7 +26,7 @@ OPTS = {"mode": "cli", "response_derives": "Serialize", "variables_derives": "De
 
 def make_tree():
     shutil.rmtree(os.path.dirname(TREE), ignore_errors=True)
-    for d in ("dirA", "dirB", "bad"):
+    for d in ("dirA", "dirB", "dirC", "inv", "bad"):
         os.makedirs(os.path.join(TREE, d))
     schema_a = space.core_schema()
     lib = space.fragment_library()
@@ -39,7 +39,14 @@ def make_tree():
     schema_b = gql.Schema([gql.obj("Q", [("version", "Int!"), ("me", "Who")]), gql.obj("Who", [("id", "Int!"), ("nick", "String")])],
                           {"query": "Q"})
     doc_b = Doc([Op("query", "Op", [Field("version"), Field("me", [Field("id"), Field("nick")])])])
+    # dirC: the schema of dirB with `Who` turned into an interface: dirB's query still binds against it but fails the
+    # `__typename` validation; inv/: a query that parses and binds against schema A but fails validation
+    schema_c = gql.Schema([gql.obj("Q", [("version", "Int!"), ("me", "Who")]), gql.iface("Who", [("id", "Int!"), ("nick", "String")]),
+                           gql.obj("W1", [("id", "Int!"), ("nick", "String")], ["Who"])], {"query": "Q"})
+    doc_c = Doc([Op("query", "Op", [Field("version"), Field("me", [TN(), Field("id")])])])
+    doc_inv = Doc([Op("query", "Op", [Field("version"), Field("node", [Field("id")])])])
     files = {
+        "dirC/schema.graphql": schema_c.sdl(), "dirC/query.graphql": gql.render_doc(doc_c), "inv/query.graphql": gql.render_doc(doc_inv),
         "dirA/schema.graphql": schema_a.sdl(), "dirA/query.graphql": gql.render_doc(doc_a),
         "dirA/schema.json": schema_a.introspection(),
         "dirB/schema.graphql": schema_b.sdl(), "dirB/query.graphql": gql.render_doc(doc_b),
@@ -80,6 +87,9 @@ def alphabet(files):
         "B": call("dirB/schema.graphql", "dirB/query.graphql"),
         "AqBs": call("dirB/schema.graphql", "dirA/query.graphql"),
         "BqAs": call("dirA/schema.graphql", "dirB/query.graphql"),
+        "invQ": call("dirA/schema.graphql", "inv/query.graphql"),
+        "C": call("dirC/schema.graphql", "dirC/query.graphql"),
+        "BqCs": call("dirC/schema.graphql", "dirB/query.graphql"),
         "missQ": call("dirA/schema.graphql", "dirA/nope.graphql"),
         "badQ": call("dirA/schema.graphql", "bad/query.graphql"),
         "missS": call("dirA/nope.graphql", "dirA/query.graphql"),
@@ -194,17 +204,17 @@ def run(tier):
     hist_jobs = [list(h) for n in range(2, L + 1) for h in itertools.product(core, repeat=n)]
     if tier == "quick":
         # length 3 over the collision-relevant sub-alphabet
-        sub = ["A", "A'", "B", "AqBs", "missQ", "badS", "Aopt", "Root", "BviaLink"]
+        sub = ["A", "A'", "B", "AqBs", "missQ", "badS", "Aopt", "Root", "BviaLink", "invQ", "C", "BqCs"]
         hist_jobs += [list(h) for h in itertools.product(sub, repeat=3)]
     else:
-        sub = ["A", "A'", "B", "AqBs", "missQ", "badS", "Aopt"]
+        sub = ["A", "A'", "B", "AqBs", "missQ", "badS", "Aopt", "invQ", "BqCs"]
         hist_jobs += [list(h) for h in itertools.product(sub, repeat=4)]
     hres = parallel_map(lambda h: run_history([sigma[x] for x in h]), hist_jobs)
     for h, res in zip(hist_jobs, hres):
         check_history(h, res, "unrolled")
     log(f"[C08] unrolled histories: {len(hist_jobs)}")
     # ------------------------------------------------------------ 3. schedules
-    sched_alpha = ["A", "A'", "B", "missQ", "Root", "BviaLink"]
+    sched_alpha = ["A", "A'", "B", "missQ", "Root", "BviaLink", "invQ"]
     programs = []
     for a, b in itertools.product(sched_alpha, repeat=2):
         programs.append([[a], [b]])
@@ -284,7 +294,7 @@ def run(tier):
     # ------------------------------------------------------------ 4. sampling supplement: 16 free-running threads
     free_runs = 8 if tier == "quick" else 60
     free_calls = 0
-    pool = ["A", "A'", "B", "AqBs", "BqAs", "missQ", "badS", "Astr", "Ajson", "Aopt"]
+    pool = ["A", "A'", "B", "AqBs", "BqAs", "missQ", "badS", "Astr", "Ajson", "Aopt", "invQ", "BqCs", "C"]
 
     def free_run(k):
         prog = [[pool[(k + t + i * 3) % len(pool)] for i in range(4)] for t in range(16)]
@@ -313,7 +323,7 @@ def run(tier):
         "rule": "every explored state is a state of the real process: cache states are read through hook H1 after each "
                 "call, schedules are executed by real threads over the real mutex. BFS: call alphabet of %d calls (valid "
                 "pairs, same file by another path spelling, same base names in another directory, cross pairs, missing / "
-                "unparsable / wrong-extension files, from_string entry, JSON schema, other options); unrolled: all histories "
+                "unparsable / wrong-extension files, queries that parse and bind but fail validation (against their own and against a look-alike schema), from_string entry, JSON schema, other options); unrolled: all histories "
                 "of length <= %d plus all length-%d histories over a 7-call sub-alphabet; schedules: %d thread programs, "
                 "every schedule with <= %d preemptions. non-trivial = distinct cache states + schedules with at least one "
                 "switch between lock points" % (len(names), L, 3 if tier == "quick" else 4, len(programs), bound),
